@@ -355,3 +355,37 @@ func c06HasNamedBasic(ty an.Type, seen map[an.Type]bool) bool {
 	}
 	return false
 }
+
+// HC06_mapKeys: JSON object keys are strings; Go writes integer keys in decimal: the Dart fromJson
+// must parse the keys of integer kind (named or not) and take string keys as they are.
+func HC06_mapKeys() {
+	pkg := skelPkg()
+	var key an.Type
+	wantParse := false
+	isEnum := false
+	switch vfChoice("key", 6) {
+	case 0:
+		key = an.String
+	case 1:
+		key, wantParse = an.Int, true
+	case 2:
+		key, wantParse = an.VfNewNamed(skelNamed(pkg, "IdItem", types.Typ[types.Int64]), &an.Basic{B: types.Typ[types.Int64]}), true
+	case 3:
+		key = an.VfNewNamed(skelNamed(pkg, "Code", types.Typ[types.String]), an.String)
+	case 4:
+		key, wantParse = &an.Basic{B: types.Typ[types.Uint8]}, true
+	default:
+		named := skelNamed(pkg, "Level", types.Typ[types.Int])
+		e := an.VfNewEnum(named, []an.EnumMember{{Const: types.NewConst(0, pkg, "Low", named, constant.MakeInt64(0))}}, true)
+		key, wantParse, isEnum = e, true, true
+	}
+	elem := []an.Type{an.Int, an.String}[vfChoice("elem", 2)]
+	text := skelSquash(jsonForMap(&an.Map{Key: key, Elem: elem}))
+	vfObserve("text", text)
+	vfKnown("C06/map-keyed-by-an-enum", isEnum)
+	if wantParse {
+		vfAssert(skelHas(text, "int.parse(k)"), "C06/integer-map-keys-are-parsed-from-their-decimal-form")
+	} else {
+		vfAssert(skelHas(text, "MapEntry(k as ") && !skelHas(text, "int.parse(k)"), "C06/string-map-keys-are-taken-as-they-are")
+	}
+}
